@@ -143,10 +143,11 @@ def check_controller(res, T, cname, unit, via_clone=False):
 
 
 PROXY_TARGETS = [("Amplifier", "volume"), ("Amplifier", "balance"), ("Amplifier", "bipolar_dc_offset"), ("MultiSynth", "transpose"),
-                 ("VorbisPlayer", "finetune"), ("Adsr", "attack_curve"), ("Amplifier", "inverse"), ("Lfo", "freq"), ("Glide", "freq_multiply")]
+                 ("VorbisPlayer", "finetune"), ("Adsr", "attack_curve"), ("Amplifier", "inverse"), ("Lfo", "freq"), ("Glide", "freq_multiply"), ("Vibrato", "freq"),
+                 ("Delay", "delay_l"), ("Echo", "delay"), ("Loop", "length")]
 
 
-def check_proxy(res, T, cname, via_file=False, full=True):
+def check_proxy(res, T, cname, via_file=False, full=True, history="plain"):
     """A MetaModule user-defined controller mapped onto an embedded controller takes over its value type:
     the stored encoding of the proxy must be the same bijection (thorough tier)."""
     import rv.api as api
@@ -162,7 +163,25 @@ def check_proxy(res, T, cname, via_file=False, full=True):
     mm.update_user_defined_controllers()
     if via_file:
         mm = mm.clone()  # the reader resolves the mapped value types again
-    unit = next(iter(sc.ranges)) if sc.kind == "dependent" else None
+        m = mm.project.modules[1]
+    if history == "recount":
+        # the controller is hidden and shown again (count lowered, then raised) without re-deriving the mappings
+        mm.user_defined_controllers = 0
+        mm.user_defined_controllers = 1
+        res.count("proxy_recount_histories")
+    units = [next(iter(sc.ranges))] if sc.kind == "dependent" else [None]
+    if history == "units" and sc.kind == "dependent":
+        units = list(sc.ranges)
+    for unit in units:
+        if history == "units" and sc.kind == "dependent":
+            # the embedded unit controller changes, the mappings are derived again: the proxy follows the new unit
+            setattr(m, sc.depends_on, getattr(type(m), sc.enum)[unit])
+            mm.update_user_defined_controllers()
+            res.count("proxy_unit_changes")
+        _check_proxy_domain(res, mm, sc, T, cname, unit, via_file, full, history)
+
+
+def _check_proxy_domain(res, mm, sc, T, cname, unit, via_file, full, history):
     n = 0
     prev = None
     dom = list(sc.domain(unit))
@@ -175,7 +194,7 @@ def check_proxy(res, T, cname, via_file=False, full=True):
         want_lo, want_hi = (0, hi - lo) if sc.kind == "compact" else (0, 0x8000)
         got_lo, got_hi = proxy.pattern_value(mm, lo), proxy.pattern_value(mm, hi)
         if (got_lo, got_hi) != (want_lo, want_hi):
-            res.violation(f"C10:proxy-pattern:{sc.kind}:{T}.{cname}", f"user-defined controller mapped on {T}.{cname} ({sc.kind}, via_file={via_file}): pattern encoding of min/max is {got_lo:#x}/{got_hi:#x}, expected {want_lo:#x}/{want_hi:#x}",
+            res.violation(f"C10:proxy-pattern:{sc.kind}:{T}.{cname}", f"user-defined controller mapped on {T}.{cname} ({sc.kind}, via_file={via_file}, history={history}, unit={unit}): pattern encoding of min/max is {got_lo:#x}/{got_hi:#x}, expected {want_lo:#x}/{want_hi:#x}",
                           {"type": T, "controller": cname, "via_file": via_file})
     for v in dom:
         n += 1
@@ -184,7 +203,7 @@ def check_proxy(res, T, cname, via_file=False, full=True):
         back = mm.user_defined_1
         raw = mm.get_raw("user_defined_1")
         if _val(back) != v or raw != want or (prev is not None and raw <= prev):
-            res.violation(f"C10:proxy:{sc.kind}:{T}.{cname}", f"user-defined controller mapped on {T}.{cname} ({sc.kind}, via_file={via_file}): stored {want} reads {back!r}, re-encodes to {raw!r} (value {v!r})",
+            res.violation(f"C10:proxy:{sc.kind}:{T}.{cname}", f"user-defined controller mapped on {T}.{cname} ({sc.kind}, via_file={via_file}, history={history}, unit={unit}): stored {want} reads {back!r}, re-encodes to {raw!r} (value {v!r})",
                           {"type": T, "controller": cname, "value": _val(v), "via_file": via_file})
             break
         prev = raw
@@ -257,6 +276,9 @@ def run_shard(spec_, res):
         if i % nshards == spec_["shard"]:
             for via_file in (False, True):
                 check_proxy(res, T, cname, via_file=via_file, full=spec_["tier"] == "thorough")
+                check_proxy(res, T, cname, via_file=via_file, full=False, history="recount")
+                if spec.load()[T].ctl(cname).kind == "dependent":
+                    check_proxy(res, T, cname, via_file=via_file, full=False, history="units")
     if spec_["shard"] == 0:
         short_cval_files(res, spec_["tier"])
     res.exhaustive = True
